@@ -1,5 +1,6 @@
 import Drv.Exec
 import Drv.PureGen
+import Drv.RefAlgo
 /-! Seeded generators of operation histories. Every random choice derives from one PRNG state. The reference `R`
     is stepped alongside so that proposals can be filtered by the (proved-equivalent) validity predicate `okStepB`
     and aimed at the limits. -/
@@ -321,6 +322,138 @@ def genSer (rng : Rng) (len : Nat) (cutStep : Nat) : Rng × Array String :=
   let s := twoHandles s true p (len / 3) (len / 6)
   (s.rng, s.lines)
 
+/-! ### slice (C13) -/
+
+def showRej (rj : List (Nat × Nat × Label)) : String :=
+  if rj.isEmpty then "-" else ",".intercalate (rj.map (fun (a, b, l) => s!"{a}>{b}>{showLabelTok l}"))
+
+/-- a digraph of `k` vertices built through real calls (cycles, shared targets, parallel labels), then slices
+    from several start vertices under random rejection tables -/
+def genSlice (rng : Rng) (len : Nat) : Rng × Array String :=
+  let (rng, n) := rng.pick [2, 3, 4, 16]
+  let (rng, k) := rng.below 13
+  let k := k + 2
+  let (rng, extra) := rng.below 6
+  let cap := k + extra
+  let s := GenSt.start rng n cap
+  -- ids: a random subset of size k
+  let (rng, ids) := (List.range cap).foldl (fun (acc : Rng × List Nat) v =>
+    let (r, c) := acc.1.below cap
+    if c < k + 2 ∧ acc.2.length < k then (r, v :: acc.2) else (r, acc.2)) (s.rng, [])
+  let s := { s with rng := rng }
+  let s := ids.foldl (fun (s : GenSt) v => match s.tryOps [.add v] with | some x => x | none => s) s
+  let s := (List.range len).foldl (fun (s : GenSt) _ =>
+    let (rng, v1) := s.rng.pick ids
+    let (rng, v2) := rng.pick ids
+    let (rng, l) := rng.pick (s.labels.take (n + 1) ++ [Lb.Label.greek 'ρ'])
+    let (rng, c) := rng.below 8
+    let s := { s with rng := rng }
+    let ops : List Op := if c = 0 then [.put v1 (Hx.Hex.ofBytes [1, 2])] else [.bind v1 v2 l]
+    match s.tryOps ops with | some x => x | none => s) s
+  let s := { s with lines := s.lines.push "observe g0" }
+  -- slices
+  let allEdges : List (Nat × Nat × Label) := (s.r.ids.flatMap (fun v => (s.r.edg v).map (fun e => (v, e.2, e.1))))
+  let s := (List.range 4).foldl (fun (s : GenSt) i =>
+    let (rng, v) := s.rng.pick (if s.r.ids.isEmpty then [0] else s.r.ids)
+    let (rng, mode) := rng.below 3
+    let (rng, rj) := if mode = 0 then (rng, []) else
+      allEdges.foldl (fun (acc : Rng × List (Nat × Nat × Label)) e =>
+        let (r, c) := acc.1.below 4
+        if c = 0 then (r, e :: acc.2) else (r, acc.2)) (rng, [])
+    let h' := s!"g{i + 1}"
+    { s with rng := rng, lines := s.lines ++ #[s!"slice g0 {v} {h'} {showRej rj}", s!"observe {h'}", "observe g0"] }) s
+  let s := s.drain
+  (s.rng, s.lines)
+
+/-! ### merge (C11, C12) -/
+
+structure TNode where
+  id : Nat
+  parent : Option (Nat × Label)      -- parent id and the label of the edge from it
+  data : Option Hex
+
+/-- a random tree of `k` nodes over the given ids; siblings get distinct labels from `pool` -/
+def genTree (rng : Rng) (ids : List Nat) (pool : List Label) : Rng × List TNode :=
+  match ids with
+  | [] => (rng, [])
+  | root :: rest =>
+    let (rng, d) := rng.below 2
+    let (rng, hx) := genHex rng
+    let rootN : TNode := ⟨root, none, if d = 0 then some hx else none⟩
+    rest.foldl (fun (acc : Rng × List TNode) v =>
+      let (rng, nodes) := acc
+      -- a parent that still has a free label
+      let cands := nodes.filter (fun p => (nodes.filter (fun c => match c.parent with | some (q, _) => q = p.id | none => false)).length < pool.length)
+      match cands with
+      | [] => (rng, nodes)
+      | _ =>
+        let (rng, p) := rng.pick (cands.map (·.id))
+        let used := nodes.filterMap (fun c => match c.parent with | some (q, l) => if q = p then some l else none | none => none)
+        let free := pool.filter (· ∉ used)
+        let (rng, l) := rng.pick free
+        let (rng, d) := rng.below 2
+        let (rng, hx) := genHex rng
+        (rng, nodes ++ [⟨v, some (p, l), if d = 0 then some hx else none⟩])) (rng, [rootN])
+
+def treeOps (t : List TNode) : List Op :=
+  t.map (fun n => Op.add n.id) ++
+  t.filterMap (fun n => n.parent.map (fun (p, l) => Op.bind p n.id l)) ++
+  t.filterMap (fun n => n.data.map (fun d => Op.put n.id d))
+
+def pickIds (rng : Rng) (cap k : Nat) : Rng × List Nat :=
+  -- k distinct ids below cap, in random order
+  (List.range k).foldl (fun (acc : Rng × List Nat) _ =>
+    let free := (List.range cap).filter (· ∉ acc.2)
+    if free.isEmpty then acc else
+      let (r, v) := acc.1.pick free
+      (r, acc.2 ++ [v])) (rng, [])
+
+/-- two trees, merged; `broken` adds isolated vertices / a detached sub-tree / a non-root `right` to the right graph -/
+def genMerge (rng : Rng) (broken : Bool) : Rng × Array String :=
+  let (rng, n) := rng.pick [2, 3, 4, 16]
+  let pool : List Label := ([Lb.Label.alpha 0, .alpha 1, .greek 'ρ', .str (Lb.pad8 "foo".toList)].take (min n 4))
+  let (rng, kl) := rng.below 7
+  let (rng, kr) := rng.below 7
+  let (rng, extraL) := rng.below 6
+  let capL := kl + 1 + kr + 1 + extraL + 2
+  let (rng, extraR) := rng.below 6
+  let capR := kr + 1 + extraR + 3
+  let (rng, idsL) := pickIds rng capL (kl + 1)
+  let (rng, idsR) := pickIds rng capR (kr + 1)
+  let (rng, tl) := genTree rng idsL pool
+  let (rng, tr) := genTree rng idsR pool
+  -- left graph g0
+  let s0 := GenSt.start rng n capL
+  let s0 := match s0.tryOps (treeOps tl) with | some x => x | none => s0
+  -- some of its data already read (only reads that collect nothing)
+  let s0 := tl.foldl (fun (s : GenSt) nd =>
+    let (rng, c) := s.rng.below 3
+    let s := { s with rng := rng }
+    if c = 0 ∧ nd.id ∈ s.r.ids ∧ (R.data s.r nd.id).ids.length = s.r.ids.length then s.emit (.data nd.id) else s) s0
+  -- right graph g1
+  let s1 : GenSt := { s0 with h := "g1", r := Sodg.R.empty, cap := capR, lines := s0.lines.push s!"new g1 {n} {capR}" }
+  let s1 := match s1.tryOps (treeOps tr) with | some x => x | none => s1
+  -- breakage of the right graph
+  let (rng, mode) := s1.rng.below 4
+  let s1 := { s1 with rng := rng }
+  let freeR := (List.range capR).filter (· ∉ idsR)
+  let s1 := if broken then
+      match mode, freeR with
+      | 0, a :: _ => match s1.tryOps [.add a] with | some x => x | none => s1
+      | 1, a :: b :: _ => match s1.tryOps [.add a, .add b, .bind a b (.alpha 0), .put b (Hx.Hex.ofBytes [9])] with | some x => x | none => s1
+      | 2, a :: _ => match s1.tryOps [.add a, .put a (Hx.Hex.ofBytes [7, 7])] with | some x => x | none => s1
+      | _, _ => s1
+    else s1
+  let (rng, left) := s1.rng.pick (tl.map (·.id))
+  let rightId := if broken ∧ mode = 3 ∧ tr.length > 1 then (tr.getD 1 ⟨0, none, none⟩).id else (tr.headD ⟨0, none, none⟩).id
+  let lines := s1.lines ++ #["observe g0", "observe g1", s!"merge g0 g1 {left} {rightId}", "observe g0", "observe g1"]
+  -- the epilogue: read every present vertex of g0 (state after the merge computed on the reference), then observe
+  let s0' : GenSt := match refMerge n capL capR s0.r s1.r left rightId with
+    | some (ra', _, _) => { s0 with r := ra', lines := lines, rng := rng }
+    | none => { s0 with lines := lines, rng := rng }
+  let s0' := s0'.drain
+  (s0'.rng, s0'.lines)
+
 /-- render profile: a history, then every text export of the graph and of each present (and one absent) vertex;
     repeated once more after some further calls -/
 def renderLines (s : GenSt) : GenSt :=
@@ -377,6 +510,9 @@ def genProfile (profile : String) (seed : Nat) (count len : Nat) : Array String 
       | "cycle" => genCycles rng (i % 14) len
       | "fork" => genFork rng len
       | "render" => genRender rng len
+      | "slice" => genSlice rng len
+      | "merge" => genMerge rng false
+      | "mergebroken" => genMerge rng true
       | "ser" => genSer rng len 7
       | "serall" => genSer rng len 1
       | _ => (rng, #[])
